@@ -50,6 +50,10 @@ func main() {
 			src, _ := os.ReadFile(fname)
 			off := func(p token.Pos) int { return pk.Fset.Position(p).Offset }
 			emit := func(fn, kind string, s, e token.Pos, repl string) {
+				// (a shadowed variable of the same name: the text does not change)
+				if string(src[off(s):off(e)]) == repl {
+					return
+				}
 				enc.Encode(mutant{File: rel, Line: pk.Fset.Position(s).Line, Func: fn, Kind: kind, Start: off(s), End: off(e), Orig: string(src[off(s):off(e)]), Repl: repl})
 			}
 			for _, d := range f.Decls {
@@ -146,6 +150,40 @@ func main() {
 								}
 							}
 						}
+					case *ast.ReturnStmt:
+						// an error result returned as nil (the failure swallowed at this exit)
+						for _, r := range x.Results {
+							t := info.TypeOf(r)
+							if t == nil || !types.Identical(t, errType) {
+								continue
+							}
+							if id, isID := r.(*ast.Ident); isID && id.Name == "nil" {
+								continue
+							}
+							emit(name, "ret-nil", r.Pos(), r.End(), "nil")
+						}
+					case *ast.BranchStmt:
+						if x.Label == nil {
+							switch x.Tok {
+							case token.BREAK:
+								emit(name, "break→continue", x.Pos(), x.End(), "continue")
+							case token.CONTINUE:
+								emit(name, "continue→break", x.Pos(), x.End(), "break")
+							}
+						}
+					case *ast.AssignStmt:
+						// `x, err = f()` in a nested block turned into a declaration: the outer variable keeps its value
+						if x.Tok == token.ASSIGN && len(x.Lhs) >= 1 {
+							all := true
+							for _, l := range x.Lhs {
+								if _, isID := l.(*ast.Ident); !isID {
+									all = false
+								}
+							}
+							if all {
+								emit(name, "shadow =→:=", x.TokPos, x.TokPos+1, ":=")
+							}
+						}
 					case *ast.CallExpr:
 						for i := 0; i+1 < len(x.Args); i++ {
 							a, b := x.Args[i], x.Args[i+1]
@@ -166,6 +204,8 @@ func main() {
 		}
 	}
 }
+
+var errType = types.Universe.Lookup("error").Type()
 
 func deref(t types.Type) types.Type {
 	if p, ok := t.(*types.Pointer); ok {
